@@ -375,7 +375,7 @@ def _where(c, a=None, b=None):
             c = np.vectorize(bool, otypes=[bool])(np.asarray(c, dtype=object).view(np.ndarray))
         return np.nonzero(c)
     c = _obj(c)
-    f = np.frompyfunc(lambda cc, x, y: ite(_b(cc), x, y) if isinstance(cc, SB) else (x if cc else y), 3, 1)
+    f = np.frompyfunc(lambda cc, x, y: ite(_b(cc), x, y) if is_sym(cc) else (x if cc else y), 3, 1)
     r = f(c, _obj(a), _obj(b))
     return SymArray(r) if isinstance(r, np.ndarray) else r
 
